@@ -94,6 +94,7 @@ type Result struct {
 	ResumedTransfers int // transfers the peer asked to resume from an offset > 0
 	HeldTurns        int // turns in which the peer said FF while holding traffic back (plan.HoldFirst)
 	Complaints       []Complaint
+	DupReoffered     int    // deferred duplicate copies that were offered again (answer judged)
 	HungUpBehindFQ   bool   // CMSHangup took place
 	Err              error  // why the peer stopped early (nil = session ended by FQ per protocol)
 	LibError         string // a "*** ..." line from the station under test
@@ -129,6 +130,8 @@ type peer struct {
 	heldOnce    bool
 	deferredNow map[string]bool
 	libDone     map[string]bool // library MIDs answered + or -
+	reoffer     []OutMsg        // deferred duplicate copies to be offered again in the next block
+	reoffered   map[string]bool // ... offered again in the current block
 	libNoMore   bool            // library's last turn was FF
 	weSentFF    bool
 	gzipOn      bool
@@ -369,6 +372,16 @@ func (p *peer) nextBlockSize() int {
 // outTurn: the peer proposes its pending messages (or FF/FQ).
 func (p *peer) outTurn() (done bool, err error) {
 	var cand []OutMsg
+	// a copy of a message that the station deferred as a duplicate within a block is offered again, on its own, in the
+	// next block (the peer still holds that copy): the message was received in the meantime, the answer is "-"
+	cand = append(cand, p.reoffer...)
+	for _, m := range p.reoffer {
+		if p.reoffered == nil {
+			p.reoffered = map[string]bool{}
+		}
+		p.reoffered[m.MID] = true
+	}
+	p.reoffer = nil
 	for _, m := range p.pending {
 		if !p.deferredNow[m.MID] {
 			cand = append(cand, m)
@@ -482,8 +495,25 @@ func (p *peer) outTurn() (done bool, err error) {
 		return true, fmt.Errorf("bad FS line")
 	}
 	var sentNow []string
+	firstAnswer := map[string]byte{}
+	var dupDeferred []OutMsg
 	for i, a := range ans {
 		m := block[i]
+		if p.reoffered[m.MID] {
+			delete(p.reoffered, m.MID)
+			p.res.DupReoffered++
+			if a.Kind != '-' {
+				p.complain("dup-reoffer-answer", "the copy of %s that was deferred as a duplicate was offered again after the message had been received: answered %q, the protocol prescribes '-'", m.MID, string(a.Kind))
+			}
+			if a.Kind != '+' {
+				continue
+			}
+		}
+		if k, dup := firstAnswer[m.MID]; dup && k == '+' && a.Kind == '=' {
+			dupDeferred = append(dupDeferred, m)
+		} else if !dup {
+			firstAnswer[m.MID] = a.Kind
+		}
 		switch a.Kind {
 		case '+':
 			if a.Offset != 0 {
@@ -551,6 +581,9 @@ func (p *peer) outTurn() (done bool, err error) {
 			p.res.Delivered = append(p.res.Delivered, mid)
 			p.dropPending(mid)
 			delete(p.deferredNow, mid) // a deferred duplicate of a delivered message is moot
+		}
+		if p.plan.DupInBlock && p.plan.Seed%2 == 0 {
+			p.reoffer = dupDeferred // ... but every other plan offers that copy once more (see outTurn)
 		}
 	}
 	return false, nil
